@@ -106,6 +106,11 @@ type memberReq struct {
 	index     uint64 // index of the configuration entry it appended
 	lost      bool   // the submitter was seen in another state or term afterwards
 	committed bool   // the entry was seen committed at the submitter while it was still leader, before the deadline
+	inc       int
+	returned  bool   // the future has resolved ...
+	outcome   string // ... with this outcome
+	returnSeq int
+	what      string
 }
 
 type replyRec struct {
@@ -297,7 +302,7 @@ func (s *Safety) On(e *Event) []Violation {
 		s.invokes[e.Client.Op] = e
 		if e.Client.Type == "add" || e.Client.Type == "remove" {
 			st := s.lastStatus[e.Node]
-			s.memberPending[e.Client.Op] = &memberReq{node: e.Node, term: st.Term, leader: st.State == "leader", invokeSeq: e.Seq, deadline: e.VT + e.Client.Timeout*1e6}
+			s.memberPending[e.Client.Op] = &memberReq{node: e.Node, term: st.Term, leader: st.State == "leader", invokeSeq: e.Seq, deadline: e.VT + e.Client.Timeout*1e6, inc: e.Inc}
 			s.memberAwaitAppend[e.Node] = e.Client.Op
 		}
 	case "return":
@@ -483,14 +488,27 @@ func (s *Safety) onStorage(e *Event) {
 func (s *Safety) onStatus(e *Event) {
 	st := e.Status
 	s.lastStatus[e.Node] = *st
-	for _, m := range s.memberPending {
+	for op, m := range s.memberPending {
 		if m.node != e.Node || m.lost || m.committed {
 			continue
 		}
-		if st.State != "leader" || st.Term != m.term {
+		// The submitter appended the entry as leader of m.term. While it stays in that term (and is
+		// the same process) nobody else can have told it that the entry is committed - there is one
+		// leader per term - so "applied >= index in term m.term" means that it committed the entry
+		// itself, as leader, whatever state it reports now (a leader that removes itself steps down
+		// in the very moment it applies the entry). The future is answered when the entry is applied.
+		if st.Term != m.term || e.Inc != m.inc {
 			m.lost = true
-		} else if m.index > 0 && st.Commit >= m.index && e.VT < m.deadline-5e6 {
+			if m.returned {
+				delete(s.memberPending, op)
+			}
+		} else if m.index > 0 && st.Applied >= m.index && (e.VT < m.deadline-5e6 || (m.returned && m.outcome != "timeout")) {
+			// (a future that resolved with an error other than a timeout resolved when the node stepped
+			// down; in the same term it cannot have committed anything after that)
 			m.committed = true
+			if m.returned {
+				s.judgeMember(m)
+			}
 		}
 	}
 	s.noteTerm(e.Node, st.Term, e.Seq, "Status()")
@@ -795,13 +813,23 @@ func (s *Safety) onSnapFile(e *Event) {
 	}
 }
 
+func (s *Safety) judgeMember(m *memberReq) {
+	if m.leader && m.committed && !m.lost && m.outcome != "ok" && m.outcome != "indeterminate" {
+		s.v("C18", "C18/membership-future-not-resolved", fmt.Sprintf("%s submitted to leader %s appended configuration entry %d, which %s committed and applied itself as leader of term %d (before the future's timeout), yet the future resolved with %q", m.what, m.node, m.index, m.node, m.term, m.outcome), m.invokeSeq, m.returnSeq)
+	}
+}
+
 func (s *Safety) onReturn(e *Event) {
 	c := e.Client
 	if m := s.memberPending[c.Op]; m != nil {
-		if m.leader && m.committed && !m.lost && c.Outcome != "ok" && c.Outcome != "indeterminate" {
-			s.v("C18", "C18/membership-future-not-resolved", fmt.Sprintf("%s(%s) submitted to leader %s appended configuration entry %d, which was committed while %s was still leader of term %d and before the future's timeout, yet the future resolved with %q", c.Type, c.Arg, m.node, m.index, m.node, m.term, c.Outcome), m.invokeSeq, e.Seq)
+		m.returned, m.outcome, m.returnSeq, m.what = true, c.Outcome, e.Seq, fmt.Sprintf("%s(%s)", c.Type, c.Arg)
+		if m.committed {
+			s.judgeMember(m)
 		}
-		delete(s.memberPending, c.Op)
+		if m.committed || m.lost || m.index == 0 || c.Outcome == "ok" || c.Outcome == "indeterminate" {
+			delete(s.memberPending, c.Op)
+		}
+		// otherwise the evidence may still arrive: the next Status() of the submitter decides
 	}
 	if c.Outcome != "ok" {
 		return
